@@ -51,7 +51,7 @@ fn typed_p(p: &Prog, lines: &[String]) -> Session {
 }
 
 fn gen_prog_in(rng: &mut Rng, stop: bool, input: bool) -> Prog {
-    let o = Opts { data: rng.chance(1, 3), func: rng.chance(1, 4), tron: false, stop, max_lines: 36, input, frac: rng.coin(), strings: rng.chance(1, 3) };
+    let o = Opts { data: rng.chance(1, 3), func: rng.chance(1, 4), tron: false, stop, max_lines: 36, input, frac: rng.coin(), strings: rng.chance(1, 3), arrays: rng.coin() };
     gen::generate(rng, o)
 }
 
@@ -372,6 +372,10 @@ impl Meta {
             "DEFINT A-C",
             "DEFSTR P-Q",
             "DEFDBL D",
+            "DEFINT T-Z",
+            "DEFDBL Z",
+            "DEFSTR A-Z",
+            "DEFSNG A:DEFINT Y-Z:Z=4.5",
             "DIM A(3),ZZ(2,2)",
             "A(2)=5",
             "DEF FNA(X)=X+100",
